@@ -6978,7 +6978,7 @@ def subn(
                             parent._put_slice(repl_slot_new, virt_idx, virt_idx + 1, virt_field, one, repl_options_)
 
                             if len(body) == len_body:  # only mark dirty if replaced exactly one element because otherwise it was a deletion or subslice
-                                if f := body[virt_idx]:
+                                if (f := body[virt_idx]) and isinstance(f, fst.FST):  # elements made of several nodes (an argument with its default, a key:value pair) come back as a view, not a node
                                     dirty.add(f.a)
 
                         continue
